@@ -59,8 +59,18 @@ fn install_hook() {
                 .location()
                 .map(|l| {
                     let f = l.file();
+                    let in_crate = f.contains("oxidize-pdf-core/src/");
                     let f = f.rsplit_once("/src/").map(|x| x.1).unwrap_or(f);
-                    format!("{}:{}", f, l.line())
+                    let mut s = format!("{}:{}", f, l.line());
+                    if !in_crate {
+                        // raised inside std (e.g. `Sum`): name the innermost frame of the crate
+                        let bt = std::backtrace::Backtrace::force_capture().to_string();
+                        if let Some(fr) = bt.lines().find_map(|x| x.find("oxidize_pdf::").map(|i| x[i..].trim().to_string())) {
+                            let fr = fr.split("::{{").next().unwrap_or(&fr).to_string();
+                            s.push_str(&format!("<{}>", fr));
+                        }
+                    }
+                    s
                 })
                 .unwrap_or_else(|| "?".into());
             if let Ok(mut g) = LAST_LOC.lock() {
@@ -90,7 +100,8 @@ struct Probe {
 }
 static PROBE: std::sync::Mutex<Option<Probe>> = std::sync::Mutex::new(None);
 
-/// One long-lived 8 MiB thread (the size of a main thread's stack) whose lower part is painted; a
+/// One long-lived 4 MiB thread (between Rust's 2 MiB default for spawned threads and the 8 MiB of a
+/// main thread; an overflow is reached in half the time of 8 MiB) whose lower part is painted; a
 /// job runs on it, then the lowest dirty probe gives the stack class: `s` = at most 1 MiB of stack
 /// was touched, `D` = more.  Only the dirtied part is repainted, so a request costs no page faults.
 /// (Coarse on purpose: the model predicts the class from its call-depth counter and the generator
@@ -139,7 +150,7 @@ fn with_stack_class<F: FnOnce() -> String + Send + 'static>(f: F) -> String {
     if g.is_none() {
         let (jtx, jrx) = std::sync::mpsc::channel::<Job>();
         let (atx, arx) = std::sync::mpsc::channel::<String>();
-        std::thread::Builder::new().stack_size(8 << 20).spawn(move || probe_thread(jrx, atx)).expect("spawn probe thread");
+        std::thread::Builder::new().stack_size(4 << 20).spawn(move || probe_thread(jrx, atx)).expect("spawn probe thread");
         *g = Some(Probe { tx: jtx, rx: arx });
     }
     let p = g.as_ref().unwrap();
@@ -1394,8 +1405,10 @@ fn gen_explore(rng: &mut Rng, tier: Tier, cases: &mut Vec<Case>) {
     }
     // mutations of real files
     let mut files: Vec<String> = vec![];
-    for dir in ["/repo/oxidize-pdf-core/tests/fixtures", "/repo/test-pdfs", "/repo/oxidize-pdf-core/tests/fixtures/fuzz-regressions"] {
-        if let Ok(rd) = std::fs::read_dir(dir) {
+    let root = std::env::var("VERIF_REPO").unwrap_or_else(|_| "/repo".into());
+    for sub in ["oxidize-pdf-core/tests/fixtures", "test-pdfs", "oxidize-pdf-core/tests/fixtures/fuzz-regressions"] {
+        let dir = format!("{}/{}", root, sub);
+        if let Ok(rd) = std::fs::read_dir(&dir) {
             let mut v: Vec<_> = rd.filter_map(|e| e.ok()).map(|e| e.path()).collect();
             v.sort();
             for p in v {
@@ -1440,7 +1453,7 @@ fn gen(rng: &mut Rng, tier: Tier) -> Vec<Case> {
 }
 
 fn limits() -> Limits {
-    Limits { per_case: std::time::Duration::from_secs(3), rlimit_as: 4 << 30, stack: 8 << 20 }
+    Limits { per_case: std::time::Duration::from_secs(4), rlimit_as: 4 << 30, stack: 8 << 20 }
 }
 
 /// Same command line and output as `harness_main`; `emit` spreads the isolated children over a few
@@ -1482,7 +1495,7 @@ fn main() {
     cases.extend(gen(&mut rng, tier));
     let clean = |s: &str| s.replace(['\t', '\n', '\r'], " ");
     let reqs: Vec<String> = cases.iter().map(|c| clean(&c.req)).collect();
-    let nthreads: usize = std::env::var("C01_THREADS").ok().and_then(|s| s.parse().ok()).unwrap_or(6).max(1);
+    let nthreads: usize = std::env::var("C01_THREADS").ok().and_then(|s| s.parse().ok()).unwrap_or(8).max(1);
     let mut answers: Vec<String> = vec![String::new(); reqs.len()];
     let chunks: Vec<Vec<(usize, String)>> = (0..nthreads).map(|t| reqs.iter().enumerate().filter(|(i, _)| i % nthreads == t).map(|(i, r)| (i, r.clone())).collect()).collect();
     let handles: Vec<_> = chunks
@@ -1503,9 +1516,11 @@ fn main() {
     // A `timeout` must be a hang, not a stall of the (shared, loaded) machine: every timed-out
     // request is run once more, alone in a fresh child, with three times the budget.
     let again: Vec<usize> = (0..reqs.len()).filter(|i| answers[*i] == "timeout").collect();
-    let hs: Vec<_> = (0..nthreads)
+    // all retries at once (a hang burns its whole budget; there are only a handful)
+    let rthreads = again.len().clamp(1, 12);
+    let hs: Vec<_> = (0..rthreads)
         .map(|t| {
-            let mine: Vec<(usize, String)> = again.iter().enumerate().filter(|(j, _)| j % nthreads == t).map(|(_, i)| (*i, reqs[*i].clone())).collect();
+            let mine: Vec<(usize, String)> = again.iter().enumerate().filter(|(j, _)| j % rthreads == t).map(|(_, i)| (*i, reqs[*i].clone())).collect();
             std::thread::spawn(move || {
                 let mut l = limits();
                 l.per_case *= 3;
